@@ -18,6 +18,8 @@ import (
 	jose "github.com/go-jose/go-jose/v4"
 	"github.com/zitadel/oidc/v3/pkg/oidc"
 	"github.com/zitadel/oidc/v3/pkg/op"
+
+	"verif/sim/kernel"
 )
 
 // ---- journal and fault injection ----
@@ -410,6 +412,7 @@ func (s *Store) nextID(prefix string) string {
 func (s *Store) enter(ctx context.Context, method string, args ...any) (fault string, je *JournalEntry) {
 	// a storage call is blocking I/O: whatever else is runnable in the process (a goroutine the code under test
 	// started for this request) gets to run before the call returns
+	kernel.Tick()
 	ny := 1
 	if s.Yields != nil {
 		ny = s.Yields()
